@@ -49,7 +49,12 @@ func runC18(c *harness.Ctx, idx int) {
 	sig := structSig(cc.S)
 	ptr := cc.V.Interface()
 	buf := make([]byte, len(want)+64)
-	// warm-up (first use of the type registers descriptors)
+	// warm-up (first use of the type registers descriptors); in every other case the
+	// type's very first use is through a by-value argument, pointer calls follow
+	if idx%2 == 1 {
+		c.Tag("history:by-value-first")
+		fSize(cc.V.Elem().Interface())
+	}
 	if sz := fSize(ptr); sz.panicked() {
 		c.Violation("size-panic", "C18/size-panic/"+sig, "EncodedSize panicked: %v", sz.pv)
 		return
